@@ -1,6 +1,7 @@
 import PartituraModel.Wire
 import PartituraModel.Model.Codec
 import PartituraModel.Model.CodecHist
+import PartituraModel.Model.CodecX
 
 open Wire Model Model.Codec
 
@@ -41,6 +42,10 @@ def pTables : P (List SRow × List PRow × List ARow) := do
 def pParamRow : P (String × ParamRow) := do
   let id ← str; let ti ← rat; let ra ← rat; let v ← rat; let cols ← list rat
   pure (id, ⟨ti, ra, cols, v⟩)
+
+def pKnot : P (Rat × Rat) := do
+  let x ← rat; let y ← rat
+  pure (x, y)
 
 def pTRow : P TRow := do
   let so ← rat; let sd ← rat; let po ← rat
@@ -193,6 +198,55 @@ def handle (ts : List String) : String :=
       fun (ro, rows, qp) =>
         let ks := timeKnots ro rows
         fmtList (fun q => fmtO (ptimeToStime ks q)) qp
+  -- ---- round 5
+  | "zh" :: rest =>
+    orErr <| (run (do let ks ← list pKnot; let lo ← rat; let hi ← rat; let qs ← list rat; pure (ks, lo, hi, qs)) rest).map
+      fun (ks, lo, hi, qs) => fmtList (fun q => fmtO (zeroHold ks lo hi q)) qs
+  | "tat" :: rest =>
+    orErr <| (run (do let m ← tok; let idx ← opt (list (list nat)); let inp ← opt (list rat); let ns ← list pMNote
+                      pure (m, idx, inp, ns)) rest).bind fun (m, idx, inp, ns) =>
+      let gs? := match idx with
+        | none => some (encGroups ns)
+        | some ix => pickGroups ns ix
+      gs?.bind fun gs =>
+      let r := match m with
+        | "average" => tempoAverageAt ns gs inp
+        | "derivative" => tempoDerivativeAt ns gs inp
+        | _ => none
+      r.map fmtRats
+  | "mono0" :: rest =>
+    orErr <| (run (list rat) rest).bind fun ss =>
+      (monotonizeDefault ss).map fun (m, x) => fmtTuple [fmtRats m, fmtRats x]
+  | "uon" :: rest =>
+    orErr <| (run (do let e ← rat; let ons ← list rat; pure (e, ons)) rest).map fun (e, ons) =>
+      let r := uniqueOnsets e ons
+      fmtTuple [fmtGroups r.1, fmtRats r.2]
+  | "enct" :: rest =>
+    orErr <| (run (do let n ← parseNorm; let m ← pMethod; let sdv ← rat; let so ← list rat; let po ← list rat
+                      let sd ← list rat; let pd ← list rat; pure (n, m, sdv, so, po, sd, pd)) rest).bind
+      fun (n, m, sdv, so, po, sd, pd) =>
+        (encodeTempoArrays m n sdv so po sd pd).map fun ps =>
+          fmtTuple [fmtRats (ps.map (·.bp)), fmtRats (ps.map (·.timing)), fmtRats (ps.map (·.ratio)),
+                    fmtList fmtRats (ps.map (·.cols))]
+  | "decf" :: rest =>
+    orErr <| (run (do let n ← parseNorm; let ss ← list pSRow; let ids ← opt (list str); let ps ← list pParamRow
+                      pure (n, ss, ids, ps)) rest).bind fun (n, ss, ids, ps) =>
+      (decodeFull n ss ids (ps.map (·.2))).map fun (notes, al) =>
+        fmtTuple [fmtList (fun (r : DNote) =>
+                    fmtTuple [r.1, fmtInt r.2.1, fmtRat r.2.2.1, fmtRat r.2.2.2.1, fmtInt r.2.2.2.2]) notes,
+                  fmtList (fun (a : String × String) => fmtTuple [a.1, a.2]) al]
+  | "msx" :: rest =>
+    orErr <| (run (do let mk ← bool; let arr ← bool; let fs ← list str; let vs ← list int; let t ← pTables
+                      pure (mk, arr, fs, vs, t)) rest).bind fun (mk, arr, fs, vs, (ss, ps, al)) =>
+      (toMatchedScoreX mk arr fs vs ss ps al).map fun (names, rows, ids, voices) =>
+        fmtTuple [fmtList (fun s => s) names, fmtList fmtMRow rows, fmtList (fun s => s) ids,
+                  fmtOpt (fmtList fmtInt) voices]
+  | "n2o" :: rest =>
+    orErr <| (run (do let v ← list rat; let gs ← list (list nat); pure (v, gs)) rest).bind fun (v, gs) =>
+      (toOnsetwise v gs).map fmtRats
+  | "o2n" :: rest =>
+    orErr <| (run (do let w ← list rat; let gs ← list (list nat); pure (w, gs)) rest).bind fun (w, gs) =>
+      (toNotewise w gs).map fmtRats
   | _ => "bad-request"
 
 def main : IO Unit := mainLoop handle
